@@ -102,6 +102,10 @@ def shapes(tier):
             ("bare_expr_self", '#[%s("{}", self.0.pick())]\n' % attr + two, c2, "s.0.id", "Display", False),
             ("bare_expr_temporary", '#[%s("{}", _0.twin())]\n' % attr + two, c2, "(s.0.id + 1) & 15", "Display", False),
             ("bare_trailing_comma", '#[%s("{}", _0,)]\n' % attr + two, c2, "s.0.id", "Display", False),
+            # a positional placeholder may refer to an argument written in named form (format_args! numbers named arguments too)
+            ("bare_implicit_to_named_arg", '#[%s("{}", n = _1)]\n' % attr + two, c2, "s.1.id", "Display", True),
+            ("bare_index0_to_named_arg", '#[%s("{0}", n = _0)]\n' % attr + two, c2, "s.0.id", "Display", False),
+            ("bare_typed_to_named_arg", '#[%s("{:x}", v = self.1.pick())]\n' % attr + two, c2, "s.1.id", "LowerHex", False),
         ]
         for l, lt in LETTERS.items():
             if l == "":
